@@ -119,6 +119,25 @@ def model_compare(ctx, toy, shard=60):
     return None, bad
 
 
+def model_compare_batch_kernel(ctx, sel):
+    """vm_compute evaluation of the batch-storage model (BatchModel.v) on a few histories with a
+    Commit after every Update: roots and abs_batch_store against the real roots / the tree model."""
+    sel = [(c, o) for c, o in sel if not c.get("atomic") and all(b["commit"] for b in c["batches"])]
+    if not sel:
+        return None, []
+    rc, out = tg.ensure_vo(ctx, ["Trie/ToyHash", "Trie/Eval", "Trie/EvalBatch"])
+    items = ["(%s,%s)" % (tg.cq_batches(c), tg.cq_list([tg.cq_bytes(r) for r in o["roots"]])) for c, o in sel]
+    txt = ["From Coq Require Import List NArith.", "From Verif Require Import Trie.Model Trie.Eval Trie.EvalBatch.",
+           "Import ListNotations.", "Open Scope N_scope.",
+           "Definition cases : list c10b_case := [\n%s]." % ";\n".join(items),
+           "Definition M := Eval vm_compute in c10b_mismatches cases.", "Print M."]
+    ok, idx, out = ctx.coq_eval_mismatches("c10b_cases", "\n".join(txt), timeout=900)
+    if not ok:
+        return "batch-model evaluation (vm_compute) failed: " + out[-1000:], []
+    ctx.cov["kernel_evaluated_batch_cases"] = len(sel)
+    return None, [sel[i] for i in idx]
+
+
 def model_compare_extracted(ctx, toy):
     """The same comparison through the extracted model (OCaml driver), for volume."""
     exe, err = tg.build_driver(ctx)
@@ -164,8 +183,15 @@ def revert_cases(ctx):
 def revert_check(ctx, binp, exe):
     """Returns (fails, corr)."""
     cases = revert_cases(ctx)
-    obs = [json.loads(l) for l in tg.run_engine(ctx, binp, "TestVerifTrieRevert", cases, "c10r")]
     fails, corr = [], None
+    try:
+        lines, crash = tg.run_engine_safe(ctx, binp, "TestVerifTrieRevert", cases, "c10r")
+    except tg.EngineFlaky as ex:
+        return [("crash-schedule-dependent", "the trie crashes on some goroutine schedules (Revert engine)", {"log": str(ex)[-2000:]})], None
+    if crash is not None:
+        fails.append(("crash", "the trie panics (process killed) on this history (Revert engine)", cases[crash]))
+        cases = cases[:crash]
+    obs = [json.loads(l) for l in lines]
     text, idx = [], []
     stats = {"revert_refused": 0, "reverted": 0, "stash": 0, "older_root_lost": 0, "target_lost": 0}
     for ci, (c, o) in enumerate(zip(cases, obs)):
@@ -327,7 +353,12 @@ def run(ctx):
                        "parallel subtree updates modelled sequentially (schedules: observed only)"]
     binp = build_engine(ctx)
     cases = gen_cases(ctx)
-    lines, crash = tg.run_engine_safe(ctx, binp, "TestVerifTrieOps", cases, "c10")
+    try:
+        lines, crash = tg.run_engine_safe(ctx, binp, "TestVerifTrieOps", cases, "c10")
+    except tg.EngineFlaky as ex:
+        ctx.finding("C10:crash-schedule-dependent", "the trie crashes on some goroutine schedules (not reproducible on a fixed input)",
+                    {"log": str(ex)[-3000:]})
+        return
     crashed = None
     if crash is not None:
         crashed = cases[crash]
@@ -350,6 +381,12 @@ def run(ctx):
     elif bad:
         corr = ("model (vm_compute) and implementation differ (root or Get) on %d of %d cases" % (len(bad), len(ksel)),
                 [dict(case=slim(ksel[i][0]), impl_roots=ksel[i][1]["roots"], impl_gets=ksel[i][1]["gets"]) for i in bad[:3]])
+    err3, bad3 = model_compare_batch_kernel(ctx, ksel[:20])
+    if err3:
+        corr = corr or (err3, [])
+    elif bad3:
+        corr = corr or ("batch-storage model (vm_compute) differs from the implementation's roots or from the tree model on %d cases" % len(bad3),
+                        [dict(case=slim(c), impl_roots=o["roots"]) for c, o in bad3[:3]])
     err2, bad2 = model_compare_extracted(ctx, toy)
     if err2:
         corr = corr or (err2, [])
@@ -358,6 +395,20 @@ def run(ctx):
         corr = corr or ("extracted model and implementation differ (root or Get) on %d of %d cases" % (len(bad2), len(toy)),
                         [dict(case=slim(toy[i][0]), impl_roots=toy[i][1]["roots"], impl_gets=toy[i][1]["gets"]) for i in bad2[:3]])
     ctx.cov["kernel_evaluated_cases"] = len(ksel)
+    # ---- parallel subtree updates under the race detector (needs cgo)
+    rbin, rnote = tg.build_race_engine(ctx, ENGINE)
+    if rbin is None:
+        ctx.cov["race_detector"] = rnote
+    else:
+        wide = [c for c in cases if c.get("shape") not in ("exh", "corpus")]
+        wide.sort(key=lambda c: -max(len(b["k"]) for b in c["batches"]))
+        sel = [dict(c, dump=False, proofs=0) for c in wide[:(80 if ctx.tier == "quick" else 4000)]]
+        raced, rlog = tg.run_race(ctx, rbin, sel, "c10race")
+        ctx.cov["race_detector"] = {"cases": len(sel), "data_race_reported": raced}
+        if raced:
+            fails.append(("data-race", "the Go race detector reports a data race in pkg/trie on these op sequences", {"log": rlog}))
+        elif rlog:
+            fails.append(("race-run-error", "the race-enabled engine failed", {"log": rlog}))
     # ---- Revert / Stash / LoadCache
     exe_r, _ = tg.build_driver(ctx)
     rfails, rcorr = revert_check(ctx, binp, exe_r)
